@@ -101,6 +101,16 @@ FIRST = {
     "C10-21": "C09.R9 at once; **C10 missed**; C10.R14 added (nothing reachable from _load_from_state_dict writes the scale buffers)",
     "C10-22": "C14.R3 at once; **C10 missed**: the value classifier of C10.R3 took every `self.<attr>` for a tensor; tensors are now the parameters and registered buffers only",
     "C11-21": "**missed at first** by every property; C11.R11 added (a wrapper registered for a torch function runs above autograd: it never returns a quantized tensor it assembled itself)",
+    "C05-32": "**missed at first**; C05.R18 (g) added (the scale of a written-back destination cannot be null); re-expressed on the rewritten helper, demonstration of mine",
+    "C05-33": "reported by the rule as it stood (C05.R16: a handler registered for an in-place op returns its first operand on every path)",
+    "C05-34": "reported by the rule as it stood (C05.R4 copy_ stores)",
+    "C06-31": "C05.R16 at once; **C06 missed**; C06.R12 added (the fields of an existing quantized tensor are never rebound)",
+    "C10-31": "C05.R16 at once; **C10 missed**; C10.R15 = C06.R12 added",
+    "C10-32": "C05.R4 at once; **C10 missed**; C10.R15 = C06.R12 (the copy_ handler's payload store is judged like any other)",
+    "C11-31": "C05.R18 (a) at once; **C11 missed**; C11.R13 = C05.R18 (a) for value handlers (a saved tensor is not rewritten through a result sharing its inner tensors)",
+    "C11-32": "C05.R4 / R21 / R18 at once; **C11 missed**; C11.R13 added",
+    "C13-31": "C05.R4 / R21 / R18 at once; **C13 missed**; C13.R7 = C05.R18 (a) added",
+    "C13-32": "C05.R4 at once; **C13 missed**; C13.R7 with a may-alias analysis (`max(a._scale, b._scale)` of the builtins returns one of its arguments; a helper's k-th returned element)",
     "C11-22": "**undecided at first**; C11.R12 added (a sum evaluated over `range(n // k)` blocks handles the `n % k` remaining rows), with built-in positive and negative examples",
     "C13-22": "**missed at first** by every property; random draws are an effect of the call graph (they read and advance the global generator): reported by C13.R3 / C13.R4 (and C14.R7)",
     "C14-21": "C02.R9 at once; **C14 undecided**; the purity rules are re-checked under C14.R7",
